@@ -14,7 +14,7 @@ Definition c11d_names_ok (j : c11d_job) : Prop :=
 
 Lemma c11d_names_backup j : c11d_names_ok j ->
   c11d_inp j <> c11d_backup j /\ c11d_inp j <> c11d_temp j /\ c11d_backup j <> c11d_temp j.
-Proof. intros (A & B & C & D & E & F). unfold c11d_backup. destruct (c11d_wmain j); auto. Qed.
+Proof. intros (A & B & C & D & E & F). unfold c11d_backup. destruct (c11d_warned j); auto. Qed.
 
 (* what the directory held under a name before the run *)
 Fixpoint c11d_pre_lookup (pre : list (nat * list N)) (m : nat) : option (list N) :=
@@ -43,7 +43,7 @@ Proof. unfold c11d_blocked. simpl. destruct (c10_is_killb _); [left; reflexivity
 (* ---- the run as a function of the three cases: temporary name blocked, backup name blocked, nothing blocked *)
 Lemma c11d_replace_unblocked en dirs j w :
   c11d_is_dir dirs (c11d_temp j) = false -> c11d_is_dir dirs (c11d_backup j) = false -> c11d_is_dir dirs (c11d_inp j) = false ->
-  c11d_replace en dirs j w = c10_replace en (c11d_wmain j) (c11d_inp j) (c11d_backup j) (c11d_temp j) (c11d_chunks j) w.
+  c11d_replace en dirs j w = c10_replace en (c11d_warned j) (c11d_inp j) (c11d_backup j) (c11d_temp j) (c11d_chunks j) w.
 Proof.
   intros Ht Hb Hi. unfold c11d_replace, c10_replace, c11d_writer_file, c11d_rename. rewrite Ht, Hb, Hi. reflexivity.
 Qed.
@@ -106,7 +106,7 @@ Proof.
       { intros w' H. right; right. exists ft. auto. }
       destruct Hr2 as [Hr2|Hr2]; rewrite Hr2; simpl; [apply Hnew; exact B2|].
       set (w3 := c10_world_of (c11d_rename en dirs temp inp w2)) in *.
-      destruct (c11d_wmain j); simpl; [apply Hnew; exact B2|].
+      destruct (c11d_warned j); simpl; [apply Hnew; exact B2|].
       pose proof (c10_kp_unlink en backup w3 inp Hib) as U.
       destruct (c10_unlink en backup w3) as [ok3 w4|e4 w4|w4]; simpl in *.
       * apply Hnew. destruct ok3; simpl; rewrite ?c10_at_say; rewrite U; exact B2.
@@ -117,7 +117,7 @@ Qed.
 (* a normal return: nothing was blocked, and the run is the run of the sink model *)
 Lemma c11d_replace_ok en dirs j w w' :
   c11d_names_ok j -> c11d_replace en dirs j w = ROk tt w' ->
-  c10_replace en (c11d_wmain j) (c11d_inp j) (c11d_backup j) (c11d_temp j) (c11d_chunks j) w = ROk tt w'.
+  c10_replace en (c11d_warned j) (c11d_inp j) (c11d_backup j) (c11d_temp j) (c11d_chunks j) w = ROk tt w'.
 Proof.
   intros Hn H. unfold c11d_replace in H. unfold c10_replace.
   destruct (c11d_writer_file en dirs (c11d_temp j) (c11d_chunks j) w) as [[] w1|e w1|w1] eqn:Hw; simpl in H; try discriminate.
@@ -155,7 +155,7 @@ Proof.
     2:{ exfalso. destruct R2 as [(_ & [Hq|Hq])|(f2 & _ & _ & _ & _ & [Hq|Hq])]; discriminate Hq. }
     destruct R2 as [(Hd & [Hq|Hq])|(f2 & B1 & B2 & B3 & B4 & [Hq|Hq])]; try discriminate; inversion Hq; subst ok2; simpl in *.
     + inversion H; subst. right. unfold c10_at. rewrite Hd. exact A2.
-    + destruct (c11d_wmain j); simpl in *; [discriminate|].
+    + destruct (c11d_warned j); simpl in *; [discriminate|].
       destruct (c10_unlink en backup w3) as [ok3 w4|e4 w4|w4] eqn:Hu; simpl in *; try discriminate.
       exfalso. unfold c10_unlink in Hu. simpl in Hu. destruct (c10_is_killb _); [discriminate|].
       destruct (c10_path_fails _); [discriminate|]. destruct (c10_is_killa _); discriminate.
@@ -178,7 +178,7 @@ Proof.
   destruct ok1; simpl; [|exact H2].
   apply c10_kp_bind; [rewrite c11d_kp_rename by auto; exact H2|]. intros ok2 w3 H3.
   destruct ok2; simpl; [|exact H3].
-  destruct (c11d_wmain j); simpl; [exact H3|].
+  destruct (c11d_warned j); simpl; [exact H3|].
   apply c10_kp_bind; [rewrite c10_kp_unlink by auto; exact H3|]. intros ok3 w4 H4.
   destruct ok3; simpl; exact H4.
 Qed.
@@ -211,14 +211,14 @@ Qed.
 
 (* C11, second sentence, for every directory the run can start in: exit status 0 or 3 means the complete new file
    under the input name, nothing under the temporary name (a stale temporary file is gone too), and under the backup
-   name of this run the original of THIS run (always when the main input had warnings; otherwise only if its removal
+   name of this run the original of THIS run (always when the job had warnings; otherwise only if its removal
    failed) or nothing: a stale backup under that name has been replaced. *)
 Lemma replace_any_dir_final_lemma : forall en wx0 dirs j orig pre,
   ck_finish (en_ck en) = true -> c11d_names_ok j ->
   let r := c11d_run en wx0 dirs j orig pre in
   (rs_exit r = Some 0 \/ rs_exit r = Some 3) ->
   c10_file_of r (c11d_inp j) = Some (concat (c11d_chunks j)) /\ c10_file_of r (c11d_temp j) = None /\
-  (c10_file_of r (c11d_backup j) = Some orig \/ (c11d_wmain j = false /\ c10_file_of r (c11d_backup j) = None)).
+  (c10_file_of r (c11d_backup j) = Some orig \/ (c11d_warned j = false /\ c10_file_of r (c11d_backup j) = None)).
 Proof.
   intros en wx0 dirs j orig pre Hck Hn r Hx. subst r. destruct (c11d_names_backup j Hn) as (Hib & Hit & Hbt).
   unfold c11d_run in *.
@@ -270,9 +270,12 @@ Proof.
   - rewrite c11d_file_of_dead, K. destruct (c11d_pre_lookup pre m); simpl; [rewrite c11_static_disk|]; reflexivity.
 Qed.
 
-(* "With warnings the original is kept as <name>.~qpdf-orig": proved when the warnings are about the main input ... *)
-Lemma replace_warned_keeps_original_partial_lemma : forall en wx0 dirs j orig pre,
-  ck_finish (en_ck en) = true -> c11d_names_ok j -> c11d_wmain j = true ->
+(* "With warnings the original is kept as <name>.~qpdf-orig", for every initial directory and every job: warnings about
+   the main input or about any other file the job processed (the latter since /repo PENDING11; before it the statement held
+   for the main input only - replace_warned_keeps_original_partial - and replace_warned_keeps_original_refuted was the
+   theorem for the other files: finding C11-F1-warnings-about-other-files). *)
+Lemma replace_warned_keeps_original_lemma : forall en wx0 dirs j orig pre,
+  ck_finish (en_ck en) = true -> c11d_names_ok j -> c11d_warned j = true ->
   let r := c11d_run en wx0 dirs j orig pre in
   (rs_exit r = Some 0 \/ rs_exit r = Some 3) ->
   c10_file_of r (c11d_kept j) = Some orig /\ c10_file_of r (c11d_inp j) = Some (concat (c11d_chunks j)).
@@ -283,21 +286,28 @@ Proof.
   destruct Hb as [Hb|[Hf _]]; [exact Hb|discriminate].
 Qed.
 
-(* ... and refuted as the property states it (warnings about ANY file processed): the main input is clean, a file given
-   to --pages / --overlay / --underlay / --copy-attachments-from has warnings; writeOutfile looks at pdf.anyWarnings() of
-   the main input only: exit status 3 ("operation succeeded with warnings; resulting file may have some problems"), and the
-   original is neither under <in>.~qpdf-orig nor anywhere else. *)
-Lemma replace_warned_keeps_original_refuted_lemma :
-  exists en j orig,
-    en_ck en = c10_repaired /\ c11d_wmain j = false /\ c11d_wother j = true /\
-    let r := c11d_run en false [] j orig [] in
-    rs_exit r = Some 3 /\ c10_file_of r (c11d_kept j) = None /\ c10_file_of r (c11d_scratch j) = None /\
-    c10_file_of r (c11d_temp j) = None /\ c10_file_of r (c11d_inp j) = Some (concat (c11d_chunks j)).
+(* exit status 3 is only reported with warnings, so: exit status 3 means the original is kept *)
+Lemma replace_exit3_keeps_original_lemma : forall en wx0 dirs j orig pre,
+  ck_finish (en_ck en) = true -> c11d_names_ok j ->
+  let r := c11d_run en wx0 dirs j orig pre in
+  rs_exit r = Some 3 -> c10_file_of r (c11d_kept j) = Some orig.
 Proof.
-  exists (mk_env 4096 (fun _ => FaNone) None 2 c10_repaired 0 None),
-         (mk_c11d_job 1 2 4 3 false true false [[37; 80; 68; 70]%N; [10]%N]), [111; 114; 105; 103]%N.
-  repeat split; vm_compute; reflexivity.
+  intros en wx0 dirs j orig pre Hck Hn r Hx.
+  assert (Hw : c11d_warned j = true).
+  { subst r. unfold c11d_run in Hx. unfold c11d_warned. destruct (c11d_replace en dirs j _) as [[] w1|e w1|w1]; simpl in Hx; try discriminate.
+    destruct (c11d_wmain j || c11d_wother j); [reflexivity|]. simpl in Hx. discriminate. }
+  apply (replace_warned_keeps_original_lemma en wx0 dirs j orig pre Hck Hn Hw). right. exact Hx.
 Qed.
+
+(* pinned on the former witness of replace_warned_keeps_original_refuted (clean main input, warnings about another
+   file): exit status 3, the original kept as <in>.~qpdf-orig, nothing under the other names *)
+Lemma replace_warned_other_file_witness_lemma :
+  let en := mk_env 4096 (fun _ => FaNone) None 2 c10_repaired 0 None in
+  let j := mk_c11d_job 1 2 4 3 false true false [[37; 80; 68; 70]%N; [10]%N] in
+  let r := c11d_run en false [] j [111; 114; 105; 103]%N [] in
+  rs_exit r = Some 3 /\ c10_file_of r (c11d_kept j) = Some [111; 114; 105; 103]%N /\ c10_file_of r (c11d_scratch j) = None /\
+  c10_file_of r (c11d_temp j) = None /\ c10_file_of r (c11d_inp j) = Some (concat (c11d_chunks j)).
+Proof. repeat split; vm_compute; reflexivity. Qed.
 
 (* started in a directory that holds only the input, with no directory in the way and no warnings about other files,
    this model is the --replace-input scenario of the sink model (Properties_C10 / the theorems above this file) *)
@@ -307,7 +317,7 @@ Lemma replace_any_dir_agrees_lemma : forall en wx0 inp kept scratch temp warn ch
 Proof.
   intros. rewrite (c10_run_writer_scen en warn wx0 (ScReplace inp (if warn then kept else scratch) temp chunks) orig eq_refl).
   unfold c11d_run. rewrite c11d_replace_unblocked by reflexivity. simpl.
-  unfold c11d_backup. simpl.
+  unfold c11d_backup, c11d_warned. simpl. rewrite !orb_false_r.
   change (c11d_initial inp orig []) with (c10_initial en (ScReplace inp (if warn then kept else scratch) temp chunks) orig).
   destruct (c10_replace en warn inp (if warn then kept else scratch) temp chunks _) as [[] w1|e w1|w1]; simpl; try reflexivity.
   rewrite !orb_false_r, !andb_true_r. reflexivity.
